@@ -9,6 +9,7 @@ action).
 from __future__ import annotations
 
 import asyncio
+import logging
 import threading
 import time
 
@@ -517,6 +518,100 @@ def sync_expiry_behind_slow_action(res, mode, slow_ms, delay_ms, act_at_ms):
         it.stop()
 
 
+def _run_script(engine, machine, script, settle_ms):
+    """script: [(at_ms, event)] ; returns after settle_ms beyond the last entry.  Sync: real time."""
+    if engine == "sync":
+        it = SyncInterpreter(machine).start()
+        t0 = time.monotonic()
+        for at, ev in script:
+            d = at / 1e3 - (time.monotonic() - t0)
+            if d > 0:
+                time.sleep(d)
+            try:
+                it.send(ev)
+            except Exception:  # noqa: BLE001  (an aborted transition is reported this way)
+                pass
+        time.sleep(settle_ms / 1e3)
+        cfgset = config_of(it)
+        it.stop()
+        return cfgset
+
+    out = {}
+
+    async def body():
+        it = Interpreter(machine)
+        await it.start()
+        t0 = asyncio.get_event_loop().time()
+        for at, ev in script:
+            d = at / 1e3 - (asyncio.get_event_loop().time() - t0)
+            if d > 0:
+                await asyncio.sleep(d)
+            await it.send(ev)
+        await asyncio.sleep(settle_ms / 1e3)
+        out["cfg"] = config_of(it)
+        await it.stop()
+    run_virtual(body)
+    return out["cfg"]
+
+
+def timer_after_rolled_back_reentry(res, engine, how, delay):
+    """A state owning an `after` timer is exited AND re-entered by a transition that then fails
+    deeper down (a spawn factory yielding no machine) and is rolled back.  The state is active as
+    before, so its delayed transition still has to fire - no later than its delay after the
+    (re-)arming."""
+    fired = []
+    calls = {"n": 0}
+    kid = create_machine({"id": "kid", "initial": "a", "states": {"a": {}}}, logic=MachineLogic())
+
+    def factory(i, c, e):
+        calls["n"] += 1
+        return None if calls["n"] == 2 else kid
+    w = {"initial": "c", "after": {str(delay): {"target": "t", "actions": ["fired"]}},
+         "on": {"SELF": {"target": "w", "reenter": True}},
+         "states": {"c": {"entry": [{"type": "spawn_kidm"}], "on": {"UP": {"target": "#m.w", "reenter": True}}}}}
+    cfg = {"id": "m", "initial": "w", "states": {"w": w, "t": {}}}
+    machine = create_machine(cfg, logic=MachineLogic(
+        actions={"fired": lambda i, c, e, a: fired.append(1)}, services={"kidm": factory}))
+    ev = {"self": "SELF", "up": "UP"}[how]
+    with observe.LogCapture(logging.ERROR):
+        cfgset = _run_script(engine, machine, [(delay // 2, ev)], 4 * delay + (60 if engine == "sync" else 0))
+    res.evaluations += 1
+    res.count("rolled-back-reentry." + engine)
+    res.hashes.add(h(["rb-reentry", engine, how, delay]))
+    if calls["n"] < 2:
+        res.count("rolled-back-reentry.not-triggered")
+        return
+    if len(fired) != 1 or "m.t" not in cfgset:
+        res.violation("C08:timer-lost-after-rolled-back-reentry/%s/%s" % (how, engine),
+                      "the state stayed active for %d ms after the rollback (delay %d ms): fired %d times, "
+                      "configuration %s" % (4 * delay, delay, len(fired), sorted(cfgset)),
+                      {"engine": engine, "event": ev, "delay_ms": delay, "config": cfg})
+
+
+def prefix_named_sibling_timer(res, engine, d1, d2):
+    """Two parallel regions whose names extend one another (scan / scanner), each with its own
+    timer.  Restarting the shorter-named region on its own must leave the other region's pending
+    timer alone."""
+    fired = []
+    cfg = {"id": "m", "type": "parallel", "states": {
+        "scan": {"initial": "on", "states": {"on": {}},
+                 "after": {str(d1): {"actions": ["f1"]}}, "on": {"RESCAN": {"target": "scan", "reenter": True}}},
+        "scanner": {"initial": "idle", "states": {"idle": {}},
+                    "after": {str(d2): {"actions": ["f2"]}}},
+        "scan_2": {"after": {str(d2 + 3): {"actions": ["f3"]}}}}}
+    machine = create_machine(cfg, logic=MachineLogic(actions={
+        n: (lambda i, c, e, a, _n=n: fired.append(_n)) for n in ("f1", "f2", "f3")}))
+    _run_script(engine, machine, [(d2 // 2, "RESCAN")], d2 + d1 + (80 if engine == "sync" else 5))
+    res.evaluations += 1
+    res.count("prefix-named-sibling." + engine)
+    res.hashes.add(h(["prefix-sibling", engine, d1, d2]))
+    if fired.count("f2") != 1 or fired.count("f3") != 1:
+        res.violation("C08:sibling-timer-lost-when-a-prefix-named-region-restarted/%s" % engine,
+                      "regions 'scanner' and 'scan_2' were never left, yet their timers fired %d and %d times "
+                      "(fired: %s)" % (fired.count("f2"), fired.count("f3"), fired),
+                      {"engine": engine, "config": cfg, "restart_at_ms": d2 // 2})
+
+
 def run_chunk(spec):
     observe.quiet_logs()
     observe.install_task_wrappers()
@@ -586,6 +681,19 @@ def run_chunk(spec):
         if si % NCHUNKS == ci:
             wd.arm("slow-action scenario %r" % (sc,))
             sync_expiry_behind_slow_action(res, *sc)
+    kk = 0
+    for engine in ("sync", "async"):
+        for how in ("self", "up"):
+            for delay in (20, 30):
+                if kk % NCHUNKS == ci:
+                    wd.arm("rolled back re-entry %s %s" % (engine, how))
+                    timer_after_rolled_back_reentry(res, engine, how, delay)
+                kk += 1
+        for d1, d2 in ((25, 40), (30, 50)):
+            if kk % NCHUNKS == ci:
+                wd.arm("prefix sibling %s" % engine)
+                prefix_named_sibling_timer(res, engine, d1, d2)
+            kk += 1
     wd.disarm()
     for k, v in observe.WRAP_COUNTS.items():
         res.count("wrapper." + k, v)
@@ -596,7 +704,8 @@ def quota(counters, tier):
     out = []
     for k in ("schedules.async", "schedules.sync", "arms", "firings", "census.samples",
               "schedules.near-deadline", "schedules.with-leave-or-reentry", "wrapper.after_timer",
-              "slow-action.scenarios.stop", "slow-action.scenarios.leave",
+              "slow-action.scenarios.stop", "slow-action.scenarios.leave", "rolled-back-reentry.sync",
+              "rolled-back-reentry.async", "prefix-named-sibling.sync", "prefix-named-sibling.async",
               "computed-delay.checked",
               "wrapper.schedule_state_tasks"):
         if counters.get(k, 0) == 0:
